@@ -24,7 +24,7 @@ CHECKS = {
             "hello-verify, DTLS 1.3 direct/HRR/client-auth/MTU 256/dual-stack) every drop-only mask over the first N datagrams of each "
             "direction (N=4 quick, 6 thorough) and every five-action mask for small N is executed, plus PRNG masks for N=10. "
             "Completion is required within H(f)=sum_{i<f+3} min(2^i s,60 s) of virtual time. Unbounded 'any finite loss' is restated "
-            "as this bounded-progress law; masks beyond the enumerated prefix are only sampled.",
+            "as this bounded-progress law; masks beyond the enumerated prefix are only sampled. The variants are repeated with applications that write three payloads the moment their own Handshake call returns (drop / hold-back masks).",
             "Trusts the in-memory network and synctest's virtual clock; the bound H(f) is a calibrated restatement of 'within the time "
             "the retransmission schedule needs'.",
             "DESIGN.md §4 C02"),
